@@ -9,7 +9,7 @@ CONSTANTS
   GTSet = "tiny"
   ConfigSet = "phase"
   MaxRuns = 2
-  MaxOps = 2
+  MaxOps = 3
   Variant = "design"
   Record = FALSE
 INVARIANT Inv_C18_Truth
